@@ -2,7 +2,7 @@
    Model: coq/model/M12_network.v (Network of ipv8/peerdiscovery/network.py, fixed tree);
    what the graph is and what each query must answer: coq/spec/S12_graph.v. *)
 From Coq Require Import ZArith List Bool.
-From IPV8V Require Import lib.PyErr lib.Bytes model.M12_network spec.S12_graph
+From IPV8V Require Import lib.PyErr lib.Bytes model.M02_wire model.M12_network spec.S12_graph
   proofs.P12_base proofs.P12_inv proofs.P12_queries proofs.P12_snapshot.
 Import ListNotations.
 Open Scope Z_scope.
@@ -87,28 +87,12 @@ Theorem blacklist_respected : forall ipc intc svcc bla blm ops,
 Proof. exact blacklist_respected_l. Qed.
 Print Assumptions blacklist_respected.
 
-(* snapshot() is the concatenation of the packed preferred non-null addresses of the verified peers;
-   loaded into a fresh Network (any caps, any blacklists) it makes exactly those addresses walkable. *)
-Theorem snapshot_roundtrip : forall ipc intc svcc bla blm ops ipc' intc' svcc' bla' blm',
-  Forall op_ok ops ->
-  let n := run (init_net ipc intc svcc bla blm) ops in
-  snapshot n = concat (map pack_addr (snapshot_addrs n)) /\
-  forall x, In x (reload ipc' intc' svcc' bla' blm' (snapshot_addrs n)) <-> In x (spec_snapshot_addrs (abs n)).
-Proof. exact snapshot_roundtrip_l. Qed.
-Print Assumptions snapshot_roundtrip.
-
-(* ... in whatever order (and multiplicity) the implementation's set iteration emits the records. *)
-Theorem snapshot_roundtrip_any_order : forall ipc intc svcc bla blm ops ipc' intc' svcc' bla' blm' l,
-  Forall op_ok ops ->
-  let n := run (init_net ipc intc svcc bla blm) ops in
-  (forall x, In x l <-> In x (snapshot_addrs n)) ->
-  forall x, In x (reload ipc' intc' svcc' bla' blm' l) <-> In x (spec_snapshot_addrs (abs n)).
-Proof. exact snapshot_roundtrip_any_order_l. Qed.
-Print Assumptions snapshot_roundtrip_any_order.
+(* The snapshot round trip (over the `address` packer of the C02 wire model, all address families) is in
+   props/C12x.v. *)
 
 (* load_snapshot terminates on every byte string: the loop fuel of the model never runs out. *)
 Theorem load_snapshot_total : forall n d,
-  snd (load_loop (length d) d (all_addrs n) (intro_cache n)) = false.
+  snd (load_loop (length d) d 0 (all_addrs n) (intro_cache n)) = false.
 Proof. exact load_snapshot_total_l. Qed.
 Print Assumptions load_snapshot_total.
 
@@ -120,12 +104,15 @@ Proof. exact Inv_reachable. Qed.
 Print Assumptions representation_invariant.
 
 (* ---- non-vacuity: concrete histories *)
-Definition ex_a0 := A4 16843009 1.
-Definition ex_a1 := A4 33686018 2.
+Definition ex_a0 := A4 [1; 1; 1; 1] 1.
+Definition ex_a1 := A4 [2; 2; 2; 2] 2.
+Definition ex_a6 := A6 (repeat 0 15 ++ [3]) 3.
+Definition ex_m4 (a : addr) := mkAm (Some a) None None.
+Definition ex_m0 := mkAm None None None.
 Definition ex_h1 :=
-  [AddVerified 1 (mkAm (Some (16843009, 1)) None); DiscoverServices 1 (mkAm None None) [7];
+  [AddVerified 1 (ex_m4 ex_a0); DiscoverServices 1 ex_m0 [7];
    GetByAddress ex_a0 None; GetPeersForService 7;
-   DiscoverAddress 1 (mkAm None None) ex_a1 (Some 7) false; GetIntroductionsFrom 1].
+   DiscoverAddress 1 ex_m0 ex_a1 (Some 7) false; GetIntroductionsFrom 1].
 
 (* warm caches, every lookup finds peer object 0 *)
 Example c12_lookups_nonvacuous :
@@ -149,19 +136,19 @@ Proof. vm_compute. reflexivity. Qed.
    preferred (IPv6) address *)
 Example c12_readd_and_snapshot :
   let n := run (init_net 2 2 2 [] [])
-               (ex_h1 ++ [RemoveByAddress ex_a0; AddVerified 1 (mkAm (Some (33686018, 2)) (Some (3, 3)))]) in
+               (ex_h1 ++ [RemoveByAddress ex_a0; AddVerified 1 (mkAm (Some ex_a1) (Some ex_a6) None)]) in
   (get_verified_by_public_key_bin n 1, snd (get_verified_by_address n ex_a1 None), verified n,
    snapshot n, snapshot_reload n)
-  = (Some 3%nat, Some 3%nat, [3%nat], 3 :: repeat 0 15 ++ [3; 0; 3], [A6 3 3]).
+  = (Some 3%nat, Some 3%nat, [3%nat], Ok (3 :: repeat 0 15 ++ [3; 0; 3]), Ok [ex_a6]).
 Proof. vm_compute. reflexivity. Qed.
 
 (* blacklists: an address update onto a blacklisted address, a blacklisted mid and a peer at a
    blacklisted address that is already walkable (from a snapshot) are all refused *)
 Example c12_blacklist_nonvacuous :
   let n := run (init_net 500 500 500 [ex_a1] [3])
-               [AddVerified 1 (mkAm (Some (16843009, 1)) None); AddVerified 1 (mkAm (Some (33686018, 2)) None);
-                AddVerified 3 (mkAm (Some (16843009, 1)) None); LoadSnapshot (pack_addr ex_a1);
-                AddVerified 2 (mkAm (Some (33686018, 2)) None)] in
+               [AddVerified 1 (ex_m4 ex_a0); AddVerified 1 (ex_m4 ex_a1);
+                AddVerified 3 (ex_m4 ex_a0); LoadSnapshot [1; 2; 2; 2; 2; 0; 2];
+                AddVerified 2 (ex_m4 ex_a1)] in
   (verified n, map (hget (heap n)) (verified n), map fst (all_addrs n))
-  = ([0%nat], [(1, mkAm (Some (16843009, 1)) None)], [ex_a0; ex_a1]).
+  = ([0%nat], [(1, ex_m4 ex_a0)], [ex_a0; ex_a1]).
 Proof. vm_compute. reflexivity. Qed.
